@@ -137,7 +137,7 @@ impl Arena {
         // Align the address, not the offset: the base is only page aligned.
         let base = self.base.as_ptr().addr();
         let beg = ((base + offset + alignment - 1) & !(alignment - 1)) - base;
-        let end = beg + bytes;
+        let end = beg.checked_add(bytes).ok_or(AllocError)?;
 
         if end > commit {
             return self.alloc_raw_bump(beg, end);
@@ -158,6 +158,9 @@ impl Arena {
     fn alloc_raw_bump(&self, beg: usize, end: usize) -> Result<NonNull<[u8]>, AllocError> {
         let offset = self.offset.get();
         let commit_old = self.commit.get();
+        if end > self.capacity {
+            return Err(AllocError);
+        }
         let commit_new = (end + ALLOC_CHUNK_SIZE - 1) & !(ALLOC_CHUNK_SIZE - 1);
 
         if commit_new > self.capacity
